@@ -107,7 +107,7 @@ class Check:
                 groups.setdefault(canon(v["sig"]), []).append(v)
             for k, (sigc, vs) in enumerate(sorted(groups.items())):
                 path = rdir / f"{self.pid}_{self.tier}_{k}.json"
-                path.write_text(json.dumps({"property": self.pid, "sig": vs[0]["sig"],
+                path.write_text(json.dumps({"property": self.pid, "tier": self.tier, "seed": self.seed, "sig": vs[0]["sig"],
                                             "what": vs[0]["what"], "count": len(vs),
                                             "cases": [v["case"] for v in vs[:20]]}, indent=1))
                 replay_paths.append(str(path))
